@@ -63,6 +63,26 @@ func drawJ2TKnobs(w *W) {
 	w.World.PoolFreshPct = pickInt(t, "knob.poolfresh", 20, 0, 50, 100)
 }
 
+// encodeReqBase: the request base as field 32000 of the root struct.
+func encodeReqBase(rb *base.Base) []byte {
+	b := []byte{tSTRUCT, 0x7d, 0x00}
+	for i, s := range []string{rb.LogID, rb.Caller, rb.Addr, rb.Client} {
+		b = append(b, tSTRING, 0, byte(i+1), byte(len(s)>>24), byte(len(s)>>16), byte(len(s)>>8), byte(len(s)))
+		b = append(b, s...)
+	}
+	if rb.Extra != nil {
+		b = append(b, tMAP, 0, 6, tSTRING, tSTRING, 0, 0, 0, byte(len(rb.Extra)))
+		for _, k := range sortedStrStrKeys(rb.Extra) {
+			v := rb.Extra[k]
+			b = append(b, 0, 0, 0, byte(len(k)))
+			b = append(b, k...)
+			b = append(b, 0, 0, 0, byte(len(v)))
+			b = append(b, v...)
+		}
+	}
+	return append(b, 0)
+}
+
 func runC02(w *W) {
 	t := w.T
 	drawJ2TKnobs(w)
@@ -81,6 +101,7 @@ func runC02(w *W) {
 	// api.js_conv fields: under EnableValueMapping the native parser hands the member's text back to Go in the
 	// middle of the document and is re-entered afterwards
 	so.JSConv, so.JSConvScalars = t.Chance(1, 4, "sch.jsconv"), true
+	so.MixedCaseAnno = t.Chance(1, 3, "sch.annocase")
 	if t.Chance(1, 25, "sch.numbered") {
 		so.NumberedFields = pickInt(t, "sch.numbered.n", 333, 120, 200, 500, 700)
 		w.Count("worlds_with_numbered_fields")
@@ -119,22 +140,7 @@ func runC02(w *W) {
 		if t.Chance(1, 2, "base.extra") {
 			reqBase.Extra = map[string]string{string(vgenStr(t, 8)): string(vgenStr(t, 200))}
 		}
-		baseBytes = append(baseBytes, tSTRUCT, 0x7d, 0x00)
-		for i, s := range []string{reqBase.LogID, reqBase.Caller, reqBase.Addr, reqBase.Client} {
-			baseBytes = append(baseBytes, tSTRING, 0, byte(i+1), byte(len(s)>>24), byte(len(s)>>16), byte(len(s)>>8), byte(len(s)))
-			baseBytes = append(baseBytes, s...)
-		}
-		if reqBase.Extra != nil {
-			baseBytes = append(baseBytes, tMAP, 0, 6, tSTRING, tSTRING, 0, 0, 0, 1)
-			for _, k := range sortedStrStrKeys(reqBase.Extra) {
-				v := reqBase.Extra[k]
-				baseBytes = append(baseBytes, 0, 0, 0, byte(len(k)))
-				baseBytes = append(baseBytes, k...)
-				baseBytes = append(baseBytes, 0, 0, 0, byte(len(v)))
-				baseBytes = append(baseBytes, v...)
-			}
-		}
-		baseBytes = append(baseBytes, 0)
+		baseBytes = encodeReqBase(reqBase)
 		w.Count("worlds_with_thrift_base")
 		w.Sig("thriftbase")
 	}
@@ -163,6 +169,15 @@ func runC02(w *W) {
 
 	ndocs := 1 + t.Intn(4, "ndocs")
 	for d := 0; d < ndocs; d++ {
+		if reqBase != nil && d > 0 && t.Chance(1, 2, "base.update") {
+			// the caller stamps the same base object anew for the next request
+			reqBase.LogID = string(vgenStr(t, 30))
+			if t.Chance(1, 2, "base.update.extra") {
+				reqBase.Extra = map[string]string{string(vgenStr(t, 8)): string(vgenStr(t, 60))}
+			}
+			baseBytes = encodeReqBase(reqBase)
+			w.Count("request_base_updated_in_place")
+		}
 		vo := vgenOpts{MaxElems: 1 + t.Intn(12, "val.elems"), MaxStr: 1 + sizeClass(t, "val.maxstr", 5000), Depth: 1 + t.Intn(4, "val.depth"),
 			PresentPct: pickInt(t, "val.present", 70, 100, 30, 0), NullPct: pickInt(t, "val.null", 0, 10, 40), UnknownPct: pickInt(t, "val.unknown", 0, 0, 10, 30),
 			Shuffle: true, ASCIIKeys: false, LongDecimals: true, DenseLists: t.Chance(1, 4, "val.dense")}
@@ -268,6 +283,45 @@ func runC02(w *W) {
 				w.Count("conforming_docs_ok")
 			}
 		}
+	}
+	// the same converter on another descriptor: a struct-typed member of the root as a root of its own (it has no
+	// request base: nothing of the context's base may show in its encoding)
+	for _, f := range sch.Root.St.Fields {
+		if f.T.Kind != tSTRUCT || f.T.St == sch.Root.St || !t.Chance(1, 3, "substruct.use") {
+			continue
+		}
+		fd := desc.Struct().FieldById(thrift.FieldID(f.ID))
+		if fd == nil {
+			break
+		}
+		vg := &vgen{t: t, o: vgenOpts{MaxElems: 1 + t.Intn(6, "substruct.elems"), MaxStr: 1 + sizeClass(t, "substruct.maxstr", 300), Depth: 1 + t.Intn(3, "substruct.depth"), PresentPct: 80, NullPct: pickInt(t, "substruct.null", 0, 20), Shuffle: true}}
+		sv := vg.value(f.T, vg.o.Depth)
+		if opts.NoBase64Binary {
+			textifyBinaries(vg, sv)
+		}
+		if opts.EnableValueMapping || (hasBinary(sv) && !opts.NoBase64Binary) {
+			break // the preconditions of F43 / F44 / F01 are judged in the document loop above
+		}
+		st := &jsonStyle{t: t, WS: t.Intn(3, "substruct.ws"), Esc: t.Intn(3, "substruct.esc"), Num: t.Intn(2, "substruct.num"), QuoteNums: opts.String2Int64, NoBase64: opts.NoBase64Binary}
+		sjs := st.render(sv)
+		sexp, sexperr := expectJ2T(nil, sv, wo)
+		if sexperr != expOK {
+			break
+		}
+		env := drawJ2TEnvAt(w, sexp, len(sjs), nil)
+		w.NextOp(fmt.Sprintf("j2t member struct %s as a root of its own, env %s", f.T.St.Name, env))
+		r := runJ2T(w, &cv, fd.Type(), sjs, env, ctx)
+		r.Facts["last_member_null"] = fmt.Sprint(lastMemberNull(sv))
+		r.Facts["write_flags"] = fmt.Sprint(opts.WriteDefaultField || opts.WriteRequireField || opts.WriteOptionalField)
+		if r.Err != nil {
+			w.Failf("conforming-rejected", r.Facts, "conforming document for the member struct %s rejected (env %s): %v\njson: %s", f.T.St.Name, env, r.Err, clip(sjs, 400))
+		}
+		if !bytes.Equal(r.Out, sexp) {
+			r.Facts["null_header_residue"] = fmt.Sprint(nullHeaderResidue(r.Out, sexp, sv, wo))
+			w.Failf("wrong-bytes", r.Facts, "member struct %s converted by the converter that converted the root: output differs from the reference encoding (env %s)\n got: %x\nwant: %x\njson: %s", f.T.St.Name, env, clipb(r.Out, 400), clipb(sexp, 400), clip(sjs, 400))
+		}
+		w.Count("member_struct_as_root")
+		break
 	}
 	// an empty input (no body at all) with a request base in the context: the base is still delivered, in a well-formed
 	// struct
